@@ -496,6 +496,27 @@ static Type infer_array_element_type(ASTNode *array_expr, Environment *env) {
  * Uses static buffer - NOT thread-safe, but sufficient for single-threaded compiler
  * ============================================================================ */
 
+/* Copy of a string literal's text in which no two '?' are adjacent: a backslash is
+ * put before every '?' that follows a '?'.  "\?" is '?' in C, so the string is
+ * unchanged, but the C compiler no longer sees a trigraph ('?' '?' and one of
+ * = / ' ( ) ! < > -), which it would replace before it even looks at the quotes.
+ * Caller frees. */
+static char *escape_trigraphs(const char *s) {
+    if (!s) s = "";
+    char *out = malloc(2 * strlen(s) + 1);
+    if (!out) {
+        fprintf(stderr, "Error: Out of memory escaping string literal\n");
+        exit(1);
+    }
+    char *o = out;
+    for (const char *p = s; *p; p++) {
+        if (*p == '?' && p > s && p[-1] == '?') *o++ = '\\';
+        *o++ = *p;
+    }
+    *o = '\0';
+    return out;
+}
+
 static char g_expr_buf[1024];
 static int g_expr_pos;
 
@@ -526,9 +547,12 @@ static void expr_to_string_impl(ASTNode *expr) {
         case AST_FLOAT:
             expr_buf_appendf("%g", expr->as.float_val);
             break;
-        case AST_STRING:
-            expr_buf_appendf("\\\"%s\\\"", expr->as.string_val ? expr->as.string_val : "");
+        case AST_STRING: {
+            char *text = escape_trigraphs(expr->as.string_val);
+            expr_buf_appendf("\\\"%s\\\"", text);
+            free(text);
             break;
+        }
         case AST_BOOL:
             expr_buf_append(expr->as.bool_val ? "true" : "false");
             break;
@@ -692,9 +716,12 @@ static void build_expr(WorkList *list, ASTNode *expr, Environment *env) {
             }
             break;
             
-        case AST_STRING:
-            emit_formatted(list, "\"%s\"", expr->as.string_val);
+        case AST_STRING: {
+            char *text = escape_trigraphs(expr->as.string_val);
+            emit_formatted(list, "\"%s\"", text);
+            free(text);
             break;
+        }
             
         case AST_BOOL:
             emit_literal(list, expr->as.bool_val ? "true" : "false");
